@@ -13,6 +13,9 @@ type Depth uint16
 // DepthSize is the size of Depth in bytes.
 const DepthSize = int(unsafe.Sizeof(Depth(0)))
 
+// MaxKeyLength is the maximum length of a key in bytes, so that its length in bits fits a Depth.
+const MaxKeyLength = int(^Depth(0)) / 8
+
 // ToBytes returns the number of bytes needed to fit given bits.
 func (dt Depth) ToBytes() int {
 	size := dt / 8
